@@ -37,3 +37,9 @@ mod record_h {
     use super::common::*;
     include!(concat!(env!("MRECORDLOG_VERIF_HARNESS_DIR"), "/record.rs"));
 }
+
+#[allow(dead_code, unused_imports, unused_variables, unused_mut, unused_assignments, clippy::all)]
+mod tracker {
+    use super::common::*;
+    include!(concat!(env!("MRECORDLOG_VERIF_HARNESS_DIR"), "/tracker.rs"));
+}
